@@ -16,7 +16,7 @@ requests the consensus model releases while handling the input are then put to t
 Crash points: between two inputs (`Ev.crash`), while handling an input or a replayed record —
 after `j` complete signer calls and `k` micro-steps into the next one (`crashAt`; this covers
 "before/after the sign-state rename", "between signing and the WAL write of the own message",
-"during replay") —, each with any number `keep` of surviving unsynced records. Restart = replay of
+"during replay") —, each followed by a restart over ANY list of surviving records. Restart = replay of
 the surviving records from the initial round state, record by record (`Ev.replayNext`), itself
 interruptible. -/
 namespace Tmv.Node04
@@ -89,9 +89,6 @@ def signCrash {Sig : Type} (sigOf : SB → Sig) (sg : Sign.Cfg Sig) (qs : List R
   | some q => (call sigOf g q (some k)).1
   | none => (Sign.step sigOf g .crash).1
 
-/-- surviving WAL: every synced record and `keep` more (at most what was written) -/
-def survivors {Sig : Type} (s : St Sig) (keep : Nat) : List Cons.Input := s.wal.take (s.synced + keep)
-
 /-- restart: round state from scratch, the surviving records are what the WAL now holds (all of it
 on disk) and are to be replayed -/
 def restart {Sig : Type} (_s : St Sig) (sg : Sign.Cfg Sig) (w : List Cons.Input) : St Sig :=
@@ -103,12 +100,15 @@ inductive Ev
   | input (i : Cons.Input) (t : Int)
   /-- the next surviving record is replayed (`catchupReplay`) -/
   | replayNext (t : Int)
-  /-- the process dies between two inputs / records -/
-  | crash (keep : Nat)
+  /-- the process dies between two inputs / records; `w` = the records a reader returns after
+  recovery — ANY list: no assumption about the log is built in (C15's `durable_returned_history`
+  says which lists the real WAL can produce: every fsynced record, a sublist of what was written,
+  in order) -/
+  | crash (w : List Cons.Input)
   /-- the process dies while handling a new input -/
-  | crashInInput (i : Cons.Input) (t : Int) (j k keep : Nat)
+  | crashInInput (i : Cons.Input) (t : Int) (j k : Nat) (w : List Cons.Input)
   /-- the process dies while replaying the next surviving record -/
-  | crashInReplay (t : Int) (j k keep : Nat)
+  | crashInReplay (t : Int) (j k : Nat) (w : List Cons.Input)
 
 def step {Sig : Type} (e : Env) (c : Cons.Cfg) (sigOf : SB → Sig) (s : St Sig) : Ev → St Sig
   | .input i t =>
@@ -124,20 +124,19 @@ def step {Sig : Type} (e : Env) (c : Cons.Cfg) (sigOf : SB → Sig) (s : St Sig)
     | i :: rest =>
       let r := consStep e c s.ns s.sg i t
       { s with ns := r.1, sg := signAll sigOf s.sg r.2, pending := rest }
-  | .crash keep => restart s (Sign.step sigOf s.sg .crash).1 (survivors s keep)
-  | .crashInInput i t j k keep =>
+  | .crash w => restart s (Sign.step sigOf s.sg .crash).1 w
+  | .crashInInput i t j k w =>
     match s.pending with
     | [] =>
       let r := consStep e c s.ns s.sg i t
-      let s1 := { s with wal := s.wal ++ [i], synced := if r.2.isEmpty then s.synced else s.wal.length + 1 }
-      restart s1 (signCrash sigOf s.sg r.2 j k) (survivors s1 keep)
+      restart s (signCrash sigOf s.sg r.2 j k) w
     | _ :: _ => s
-  | .crashInReplay t j k keep =>
+  | .crashInReplay t j k w =>
     match s.pending with
     | [] => s
     | i :: _ =>
       let r := consStep e c s.ns s.sg i t
-      restart s (signCrash sigOf s.sg r.2 j k) (survivors s keep)
+      restart s (signCrash sigOf s.sg r.2 j k) w
 
 def run {Sig : Type} (e : Env) (c : Cons.Cfg) (sigOf : SB → Sig) (s : St Sig) : List Ev → St Sig
   | [] => s
@@ -152,5 +151,42 @@ def consCore (e : Env) (c : Cons.Cfg) (lss0 : Option (Nat × Nat × Cons.Payload
       let ns1 := Cons.step c ns i
       (ns1, (ns1.out.drop ns.out.length).filterMap (e.reqOf 0))
     internal := fun _ => false }
+
+/-! ### the WAL with the node's own messages as records
+
+In the real WAL the node's own proposal, block part and votes are records too (`msgInfo` with an
+empty peer id, `WriteSync`ed when taken off the internal queue); `catchupReplay` feeds every record
+through `handleMsg` / `handleTimeout`, and signing attempts made on the way are answered by a signer
+that is already ahead (refused, or the stored signature reused) and ignored in `replayMode`. -/
+
+inductive Rec
+  | ext (i : Cons.Input)
+  | own (m : Cons.Internal)
+
+/-- replay of one record: own messages come from the record, the internal queue is not touched -/
+def replayRec (c : Cons.Cfg) (s : Cons.NodeState) : Rec → Cons.NodeState
+  | .ext i => if s.halted ∨ s.decided.isSome then s else Cons.handleInput c s i
+  | .own m => if s.halted ∨ s.decided.isSome then s else Cons.handleInternal c s m
+
+def replayRecs (c : Cons.Cfg) (s : Cons.NodeState) (rs : List Rec) : Cons.NodeState := rs.foldl (replayRec c) s
+
+/-- the own messages `Cons.drain` takes off the queue, in order (each is `WriteSync`ed first) -/
+def drainLog (c : Cons.Cfg) : Nat → Cons.NodeState → List Cons.Internal
+  | 0, _ => []
+  | fuel + 1, s =>
+    if s.halted ∨ s.decided.isSome then [] else
+    match s.queue with
+    | [] => []
+    | m :: rest => m :: drainLog c fuel (Cons.handleInternal c { s with queue := rest } m)
+
+/-- the records the receive routine writes for one step of `Cons.step`: the input, then every own
+message it handles -/
+def stepLog (c : Cons.Cfg) (s : Cons.NodeState) (i : Cons.Input) : List Rec :=
+  if s.halted ∨ s.decided.isSome then [] else
+  .ext i :: (drainLog c Cons.drainFuel (Cons.handleInput c s i)).map .own
+
+def runLog (c : Cons.Cfg) : Cons.NodeState → List Cons.Input → List Rec
+  | _, [] => []
+  | s, i :: is => stepLog c s i ++ runLog c (Cons.step c s i) is
 
 end Tmv.Node04
